@@ -121,6 +121,17 @@ static void window_case(uint64_t in_id, size_t len, int w)
 
 /* ---------------- dictionaries ---------------- */
 static uint8_t *DICT;
+/* the pre-processed dictionary is meant to be used "on multiple deflate objects" (igzip_lib.h): installing it must not change it */
+static struct isal_dict PD_SNAP;
+static int pd_changed;
+static void pd_report(const char *key)
+{
+	if (pd_changed) {
+		v_violation(key, "isal_deflate_reset_dict modified the caller's pre-processed dictionary object (it is shared between streams)");
+		nfail++;
+		pd_changed = 0;
+	}
+}
 static void dict_cases(uint64_t *unit)
 {
 	static const int dlens[] = { 1, 2, 3, 4, 5, 257, 32767, 32768, 32769, 70000 };
@@ -198,8 +209,11 @@ static void dict_cases(uint64_t *unit)
 								default: for (size_t i = 0; i < sizeof *pd; i++) ((uint8_t *)pd)[i] = (uint8_t)((i * 2654435761u) >> 11);
 								}
 								rd = isal_deflate_process_dict(s, pd, din, dl);
-								if (rd == COMP_OK)
+								if (rd == COMP_OK) {
+									memcpy(&PD_SNAP, pd, sizeof PD_SNAP);
 									rd = isal_deflate_reset_dict(s, pd);
+									pd_changed |= memcmp(&PD_SNAP, pd, sizeof PD_SNAP) != 0;
+								}
 							}
 							if (hlate)
 								s->hist_bits = hbits;
@@ -227,6 +241,7 @@ static void dict_cases(uint64_t *unit)
 							ok = 0;
 						}
 						v_eval();
+							pd_report(key);
 						if (ok && (rd != COMP_OK || r != COMP_OK || s->internal_state.state != ZSTATE_END)) {
 							v_violation(key, "dictionary call returned %d, isal_deflate %d", rd, r);
 							nfail++;
@@ -357,8 +372,11 @@ static void dict_midstream(uint64_t *unit)
 									else {
 										memset(pd, 0xff, sizeof *pd);
 										rd = isal_deflate_process_dict(s, pd, DICT, dl);
-										if (rd == COMP_OK)
+										if (rd == COMP_OK) {
+											memcpy(&PD_SNAP, pd, sizeof PD_SNAP);
 											rd = isal_deflate_reset_dict(s, pd);
+											pd_changed |= memcmp(&PD_SNAP, pd, sizeof PD_SNAP) != 0;
+										}
 									}
 									s->flush = NO_FLUSH;
 									s->next_in = B; s->avail_in = bl; s->end_of_stream = 1;
@@ -373,6 +391,7 @@ static void dict_midstream(uint64_t *unit)
 								ok = 0;
 							}
 							v_eval();
+							pd_report(key);
 							if (ok && (r1 != COMP_OK || rd != COMP_OK || r2 != COMP_OK || s->internal_state.state != ZSTATE_END)) {
 								v_violation(key, "first part %d, dictionary call %d, second part %d, state %d", r1, rd, r2, s->internal_state.state);
 								nfail++;
@@ -480,8 +499,11 @@ static void window_edge_hist(uint64_t *unit)
 									else {
 										memset(pd, 0xff, sizeof *pd);
 										rd = isal_deflate_process_dict(s, pd, d, cut);
-										if (rd == COMP_OK)
+										if (rd == COMP_OK) {
+											memcpy(&PD_SNAP, pd, sizeof PD_SNAP);
 											rd = isal_deflate_reset_dict(s, pd);
+											pd_changed |= memcmp(&PD_SNAP, pd, sizeof PD_SNAP) != 0;
+										}
 									}
 									memset(d, 0xA5, cut); /* the dictionary buffer may be reused once it has been installed */
 									off = cut;
@@ -494,6 +516,7 @@ static void window_edge_hist(uint64_t *unit)
 							} else
 								fault = 1;
 							v_eval();
+							pd_report(key);
 							if (fault) {
 								v_violation(key, "%s", v_fault_desc());
 								nfail++;
